@@ -95,6 +95,9 @@ def mk_item(prop, mname, bs, rate, nb, tier, opts):
 
 def replay_candidate(it, c):
     meta = it.meta
+    if meta.get('prop') == 'C18' and 'kind' in meta:
+        from . import writers
+        return writers.replay_candidate(it, c)
     o = meta['opts']
     req = dict(kind='fault', method=meta['method'], bs=meta['bs'], rate=meta['rate'], model=c['model'], version=o.get('version'),
                fault=o.get('fault'), fault2=o.get('fault2'), fault_in_open=bool(o.get('fault_in_open')), preload=bool(o.get('preload')),
@@ -105,6 +108,9 @@ def replay_candidate(it, c):
 def main(prop, tier, only=None):
     t0 = time.time()
     items = items_for(prop, tier)
+    if prop == 'C18':
+        from . import writers
+        items += writers.items_for('C18', tier)
     if only:
         items = [i for i in items if only in i.desc]
     results = run_items(items)
